@@ -174,6 +174,7 @@ class Env:
         self.net.listeners.append(self.rec.net_event)
         self.raise_conn_sub = False
         self.raise_msg_sub = False
+        self.conn_sub_sends = []
         self.api_tasks = []
         self.close_tasks = []
         self._setup_socket()
@@ -240,6 +241,10 @@ class Env:
         self.delivered_canon = []
 
     async def _conn_body(self, connected):
+        if connected and self.conn_sub_sends:
+            # like the API objects: the connection subscriber sends a request from inside the notification
+            sid, kind, policy = self.conn_sub_sends.pop(0)
+            await self._api_send(sid, kind, policy)
         if self.raise_conn_sub:
             raise RuntimeError("subscriber failure (injected)")
 
@@ -446,6 +451,11 @@ class Env:
                     self.raise_conn_sub = bool(op[2])
                 else:
                     self.raise_msg_sub = bool(op[2])
+            elif k == "subsend":
+                _, sid, kind, policy = op
+                self.conn_sub_sends.append((sid, kind, policy))
+            elif k == "failfirst":
+                net.fail_first_write = bool(op[1])
             elif k == "heal":
                 await self._heal()
             else:
@@ -456,6 +466,8 @@ class Env:
         net = self.net
         net.mode = "accept"
         net.latency = 0.0
+        net.fail_first_write = False
+        self.conn_sub_sends = []
         self.raise_conn_sub = False
         self.raise_msg_sub = False
         for c in net.conns:
